@@ -879,6 +879,9 @@ class TypedValue(Value):
                 return {}
             return self.get_type_object(ctx).can_assign(self, other, ctx)
         elif isinstance(other, MultiValuedValue):
+            # The bottom type is assignable to every other type.
+            if other is NO_RETURN_VALUE:
+                return {}
             bounds_maps = []
             for val in other.vals:
                 can_assign = self.can_assign(val, ctx)
